@@ -1147,9 +1147,10 @@ class Network:
 
         elif isinstance(peer_init_message, PeerPierceFirewall.Request):
             ticket = peer_init_message.ticket
-            try:
-                connection_future = self._expected_connection_futures[ticket]
-            except KeyError:
+            connection_future = self._expected_connection_futures.get(ticket)
+            # A future that is already done is no longer waiting for a
+            # connection: cancelled or timed out, but not yet removed
+            if connection_future is None or connection_future.done():
                 logger.warning(
                     "%s:%d : unknown pierce firewall ticket : %d",
                     connection.hostname, connection.port, ticket
